@@ -85,12 +85,13 @@ alt:
         T_KEY ':' opt_leaf stmt T_END
             {
                 if $3 != nil {
+                    pos := yylex.(*Parser).builder.NewTokensPosition($1, $5)
                     $$ = &ast.Alt{
-                        Position: yylex.(*Parser).builder.NewTokensPosition($1, $5),
+                        Position: pos,
                         KeyTkn: $1,
                         ColonTkn: $2,
                         Stmt: &ast.Pair{
-                            Position: yylex.(*Parser).builder.NewNodesPosition($3, $4),
+                            Position: pos,
                             Left: $4,
                             Right: $3,
                         },
